@@ -179,7 +179,12 @@ def single_assembly(rng, tdep=None, gap=None, lf=None, regions=None,
         feats['lf_cf'] = t['convection_factor']
     P['types']['a'] = t
     regs = []
-    if not lf and (regions if regions is not None else rng.random() < 0.35):
+    if lf:
+        # a low-fidelity assembly may have further axial regions below and
+        # above its (homogenised) bundle section
+        if regions is not False and rng.random() < 0.4:
+            regs = add_axial_regions(rng, P, 'a')
+    elif (regions if regions is not None else rng.random() < 0.35):
         regs = add_axial_regions(rng, P, 'a')
     feats['regions'] = [t['AxialRegion'][n]['model'] for n in regs] \
         if regs else []
@@ -251,8 +256,8 @@ def core_problem(rng, n_ring=2, n_types=None, tdep=False, gap='flow',
             t['use_low_fidelity_model'] = True
             t['convection_factor'] = choose(rng, ['calculate', 1.0, 0.5])
         P['types'][nm] = t
-        if not t.get('use_low_fidelity_model') and \
-                rng.random() < regions_frac:
+        if rng.random() < regions_frac * (
+                0.5 if t.get('use_low_fidelity_model') else 1.0):
             add_axial_regions(rng, P, nm)
         names.append(nm)
         feats['types'].append((t['num_rings'], nd,
